@@ -92,6 +92,18 @@ def analyse_tree(tree: ast.Module, relpath: str):
                             (isinstance(b, ast.Call) and isinstance(b.func, ast.Name) and b.func.id == "type") or \
                             (isinstance(b, ast.Attribute) and b.attr == "__class__")
                         if is_cls:
+                            # only when the value is read back into a computation (a mere instance counter / log is not a result path)
+                            used = False
+                            for m_ in ast.walk(tree):
+                                if isinstance(m_, ast.Attribute) and m_.attr == tg.attr and isinstance(m_.ctx, ast.Load):
+                                    par_ = getattr(m_, "_parent", None)
+                                    if isinstance(par_, ast.Compare) and any(isinstance(c_, ast.Constant) and c_.value is None for c_ in par_.comparators):
+                                        continue
+                                    if isinstance(par_, ast.AugAssign):
+                                        continue
+                                    used = True
+                            if not used:
+                                continue
                             dec_stores.append((fn, n))
                             problems.append(("classstate", f"{relpath}:{fn.name}", n, f"`{src(tg)}` is state of the CLASS, written from a method: every "
                                              "object of the class (and every later construction in the process) sees what earlier ones left "
